@@ -71,6 +71,32 @@ Theorem C15_generate_parse_timelock_spend : forall sig pk height pkh,
 Proof. exact generate_parse_timelock_spend. Qed.
 Print Assumptions C15_generate_parse_timelock_spend.
 
+(* the VALUE of a PUSH_SUBSCRIPT slot is the nested script's source bytes: generation embeds them
+   verbatim (never a re-serialisation of the nested values), in every template ... *)
+Theorem C15_subscript_verbatim : forall ops vs s n t t' src,
+  generate ops vs = Some s -> In (PushSub n t) ops -> lookup n vs = Some (VSub t' src) ->
+  exists pre post, s = pre ++ push src ++ post.
+Proof. exact subscript_verbatim_general. Qed.
+Print Assumptions C15_subscript_verbatim.
+
+(* ... and for the time-lock spend exactly: signature, pubkey, then the given redeem script *)
+Theorem C15_timelock_spend_verbatim : forall sig pk t src,
+  generate (snd REDEEM_SCRIPT_HASH_TIME_LOCK)
+           [(F_signature, VBytes sig); (F_pubkey, VBytes pk); (F_script, VSub t src)]
+  = Some (push sig ++ push pk ++ push src).
+Proof. exact timelock_spend_verbatim. Qed.
+Print Assumptions C15_timelock_spend_verbatim.
+
+(* ANY non-empty redeem script bytes -- canonically encoded or not, a time-lock script or not -- come
+   back from the generated spending input as exactly those bytes *)
+Theorem C15_timelock_spend_any_redeem_script : forall sig pk src,
+  N.of_nat (length sig) < LIMIT -> N.of_nat (length pk) < LIMIT -> N.of_nat (length src) < LIMIT -> src <> [] ->
+  parse_input (push sig ++ push pk ++ push src) =
+  SMatch T_script_hash_timelock
+         [(F_signature, VBytes sig); (F_pubkey, VBytes pk); (F_script, VSub SubTimeLock src)].
+Proof. exact timelock_spend_any_redeem_script. Qed.
+Print Assumptions C15_timelock_spend_any_redeem_script.
+
 (* mutually inverse: generating again from the values the parser returned reproduces the script
    byte for byte *)
 Theorem C15_parse_then_generate_output : forall name ops vs s vs', In (name, ops) output_templates ->
